@@ -849,6 +849,7 @@ func (w *Worker) callBuiltin(caller *frame, pos token.Pos, fn *ssa.Builtin, args
 	case "delete":
 		m := args[0].(*Map)
 		if m != nil {
+			w.noteMap(m, true)
 			w.mapDelete(m, args[1])
 		}
 		return nil
@@ -875,6 +876,7 @@ func (w *Worker) callBuiltin(caller *frame, pos token.Pos, fn *ssa.Builtin, args
 			if x == nil {
 				return mkInt(64, 0)
 			}
+			w.noteMap(x, false)
 			return mkInt(64, uint64(x.Len()))
 		case *Chan:
 			if x == nil {
@@ -1085,6 +1087,7 @@ func (it *mapIter) next(w *Worker) Value {
 func (w *Worker) rangeIter(fr *frame, instr *ssa.Range, x Value) iter {
 	switch x := x.(type) {
 	case *Map:
+		w.noteMap(x, false)
 		return &mapIter{m: x}
 	case Str:
 		return &strIter{s: x}
